@@ -246,8 +246,9 @@ func (cs *contentStore) Save(auth string, ct ContentType, content []byte, option
 
 // safeSave saves given content to store by given key but returns error if content with given key already exists.
 func (cs *contentStore) safeSave(auth, key string, content []byte, tags ...storage.Tag) error {
-	cs.lock.RLock()
-	defer cs.lock.RUnlock()
+	// "is the id free?" and the write are one step: two saves under one id must not both find it free.
+	cs.lock.Lock()
+	defer cs.lock.Unlock()
 
 	store, err := cs.open(auth)
 	if err != nil {
